@@ -299,6 +299,12 @@ func RunC09(r *Run) {
 		}
 		in := w.prepareInputs(n)
 		sp := loadSpec{loader: w.pickLoader(in), conc: w.pickConc(), bias: r.Choose("bias", 3)}
+		if r.Choose("length-minus-one", 3) == 0 {
+			// "no limit" said explicitly: a length of -1 instead of no length
+			minusOne := -1
+			sp.length = &minusOne
+			r.Probe("unlimited-load-with-explicit-minus-one")
+		}
 		r.Logf("reload n%d via %s conc=%d bias=%d |set|=%d heads=%d", n.Idx, loaderNames[sp.loader], sp.conc, sp.bias, len(in.set), len(in.heads))
 		l, err, _ := w.load(in, sp, Writers()[4])
 		if err != nil {
@@ -454,6 +460,28 @@ func RunC10(r *Run) {
 				r.Violate("C10:load-error", "%s with length %d failed with no fault injected: %v", loaderNames[ld], limit, err)
 			}
 			got := sortedKeys(hashSet(l.GetEntries()))
+			if vs := sortedCopy(hashSeq(l.Values())); joinS(vs) != joinS(got) {
+				r.Violate("C10:values", "%s with length %d returned a log that holds %v but linearises %v", loaderNames[ld], limit, w.M.Names(got), w.M.Names(vs))
+			}
+			{
+				held := hashSet(l.GetEntries())
+				named := map[string]bool{}
+				for h := range held {
+					for _, nx := range w.M.Reg[h].Next {
+						named[nx] = true
+					}
+				}
+				var wantHeads []string
+				for h := range held {
+					if !named[h] {
+						wantHeads = append(wantHeads, h)
+					}
+				}
+				sort.Strings(wantHeads)
+				if hs := sortedCopy(hashSeq(l.Heads())); joinS(hs) != joinS(wantHeads) {
+					r.Violate("C10:heads", "%s with length %d returned a log with heads %v, its unreferenced entries are %v", loaderNames[ld], limit, w.M.Names(hs), w.M.Names(wantHeads))
+				}
+			}
 			r.Logf("limited n%d via %s limit=%d size=%d k=%d conc=%d bias=%d -> %d entries (steps %d)", n.Idx, loaderNames[ld], limit, size, len(supplied), sp.conc, sp.bias, len(got), d.Steps)
 			for _, h := range got {
 				if !in.set[h] {
